@@ -42,6 +42,10 @@ def run(chk):
                          if not lit.lstrip("-").isdigit() else "send [USD %s] (\n source = @world\n destination = @a\n)\n" % lit)
     import tricky
     texts += tricky.literal_scripts(rng, chk.size(300, 5000))
+    # a string literal whose last character is a backslash: `\"` is tried as an escaped quote first, the lexer backs off
+    # when no closing quote follows on the line
+    texts += ['set_tx_meta("dir", "C:\\")\n', 'vars { string $s = meta(@acc, "\\") }\nset_tx_meta("k", $s)\n', 'set_tx_meta("k", "x\\")',
+              'set_tx_meta("a\\", "b")\n', 'set_tx_meta("\\\\", "\\\\\\")\n', 'set_account_meta(@a, "k", "\\\"\\")\n']
     # texts that look blank: only characters some library calls whitespace; the grammar skips blank, tab, CR, LF only
     lookalikes = ["\f", "\v", "\u0085", "\u00a0", "\u1680", "\u2000", "\u2003", "\u2028", "\u2029", "\u202f", "\u205f", "\u3000", "\ufeff", "\u200b"]
     for w in lookalikes:
